@@ -3,6 +3,7 @@
 -/
 import Stfs.Proofs.AppendOnly
 import Stfs.Gen.OpenFlags
+import Stfs.Gen.Fingerprints
 namespace Stfs.C05
 open Stfs Gen
 
@@ -92,5 +93,15 @@ theorem drive_opened_append_only :
     (truncateSites.all (fun s => s.conds.contains [111, 118, 101, 114, 119, 114, 105, 116, 101])) = true ∧
     overwriteLatched = true ∧ overwritePassedLatched = true := by
   decide
+
+-- MIRRORS-BEGIN (maintained by bin/update-mirrors)
+/-- The parts of the model this file's theorems are about were written by hand against these
+    versions of the functions they mirror (fingerprint of each function's comment-free source,
+    regenerated on every run).  When one of them changes, this obligation fails: the change has
+    to be confirmed harmless by the correspondence, or shows up as its failing input. -/
+theorem model_mirrors_source :
+    [(n!"operations.Operations.Archive"), (n!"operations.Operations.archive"), (n!"operations.Operations.Update"), (n!"operations.Operations.Delete"), (n!"operations.Operations.Move")].map Gen.fingerprintOf =
+    [some 1648624610388481193, some 5792097208041111, some 759131720475697022, some 909123977399108449, some 621564509989880546] := by decide
+-- MIRRORS-END
 
 end Stfs.C05
